@@ -1,18 +1,27 @@
 // correspondence harness for the argument keys and the argument table (C05)
 //   keys add <hex spec>              ArgumentKey( spec), then ArgumentContainer::addArgument() with a
 //                                    real handler object  -> ok idx=<n> | throw <class>
-//   keys find <0|1> <hex key>        ArgumentKey( key), ArgumentContainer( abbr)::findArg()
+//   keys addsub <hex spec>           a sub-group argument of the same handler (its second container,
+//                                    Handler::mSubGroupArgs): every specification accepted so far is replayed on a
+//                                    scratch Handler (plain ones, then sub-group ones), then
+//                                    Handler::addArgument( spec, Handler& subGroup, desc) -> ok idx=<n> | throw <class>
+//                                    <n> = the GLOBAL definition index (plain and sub-group arguments counted
+//                                    together); once a sub-group argument exists `keys add` asks the scratch Handler
+//                                    first (the other container is checked by Handler::addArgument only)
+//   keys find <0|1> <hex key>        ArgumentKey( key), ArgumentContainer( abbr)::findArg()  (plain table only)
 //                                    -> ok <idx> | ok none | throw <class>
 //   keys findc <0|1> <hex char>      the same with ArgumentKey( char)
 //   keys word <0|1> <hex word>       the command-line path: a fresh Handler (hfNoAbbr or not) receives every
-//                                    accepted specification with an int destination, then
-//                                    evalArguments( {prog, word, "7"}) -> ok <idx of the destination that holds 7>
+//                                    accepted specification with an int destination (a sub-group specification: with
+//                                    a Handler sub( h, 0) that has one positional int argument), then
+//                                    evalArguments( {prog, word, "7"}) -> ok <global idx of the destination that holds 7>
 //                                    | ok none ("Unknown argument") | throw <class>
 //   keys parse <hex spec>            -> ok short=<hex|-> long=<hex|-> str=<hex of operator<<>
 //   keys cmp <hex spec> <hex spec>   -> ok eq=. mismatch=. sw=. lt=.
 // Two containers (abbreviations allowed / not allowed, the flag is a constructor argument) receive the
 // same arguments.
 #include "common.hpp"
+#include <deque>
 #include <map>
 #include <memory>
 #include <sstream>
@@ -31,8 +40,10 @@ struct Tables {
    std::vector<std::unique_ptr<int>> vars;
    std::unique_ptr<ArgumentContainer> abbr, noabbr;
    std::map<const TypedArgBase*, size_t> indexA, indexN;
-   size_t count = 0;
-   std::vector<std::string> specs;   // the accepted specifications, in definition order
+   size_t count = 0;                 // global definition index of the next accepted argument
+   // the accepted specifications with their global index, in definition order of their container
+   std::vector<std::pair<std::string, size_t>> specs;      // plain arguments
+   std::vector<std::pair<std::string, size_t>> subspecs;   // sub-group arguments
    Tables() : abbr(new ArgumentContainer(true)), noabbr(new ArgumentContainer(false)) {}
 };
 
@@ -42,6 +53,39 @@ static std::string keyFields(const ArgumentKey& k) {
    std::string sh;
    if (k.argChar() != '\0') sh.assign(1, k.argChar());
    return "short=" + vh::hexOut(sh) + " long=" + vh::hexOut(k.argString()) + " str=" + vh::hexOut(os.str());
+}
+
+// a real Handler with every accepted specification: the plain arguments get an int destination each, every
+// sub-group argument a Handler sub( h, 0) with one positional int argument
+struct Filled {
+   std::vector<std::unique_ptr<int>> dest;     // one per argument, plain ones first
+   std::vector<size_t> global;                 // global definition index of dest[i]
+   std::deque<celma::prog_args::Handler> subs; // the sub-group handlers must outlive their use (stable addresses)
+};
+
+// returns "" or a line starting with "!!"
+static std::string fill(celma::prog_args::Handler& h, const Tables& T, Filled& f) {
+   for (auto const& sp : T.specs) {
+      f.dest.emplace_back(new int(0));
+      f.global.push_back(sp.second);
+      try { h.addArgument(sp.first, celma::prog_args::destination(*f.dest.back(), "d"), "d"); }
+      catch (const std::exception& e) {
+         return std::string("!! Handler::addArgument refused a specification the container accepted: ") + e.what();
+      }
+   }
+   for (auto const& sp : T.subspecs) {
+      f.dest.emplace_back(new int(0));
+      f.global.push_back(sp.second);
+      try {
+         f.subs.emplace_back(h, 0);
+         f.subs.back().addArgument("-", celma::prog_args::destination(*f.dest.back(), "d"), "d");
+         h.addArgument(sp.first, f.subs.back(), "d");
+      }
+      catch (const std::exception& e) {
+         return std::string("!! Handler::addArgument refused a sub-group specification it accepted before: ") + e.what();
+      }
+   }
+   return "";
 }
 
 int main() {
@@ -56,6 +100,18 @@ int main() {
          if (!vh::hexDecodeStr(t[2], spec)) return "bad-op";
          std::string thrown = vh::guarded([&] {
             const ArgumentKey key(std::string(spec.data(), spec.size()));
+            std::string viaHandler;
+            const bool haveSub = !T->subspecs.empty();
+            if (haveSub) {
+               // the sub-group container is asked by Handler::addArgument only: scratch Handler first
+               celma::prog_args::Handler h(0);
+               Filled f;
+               out = fill(h, *T, f);
+               if (!out.empty()) return;
+               int d = 0;
+               viaHandler = vh::guarded([&] { h.addArgument(spec, celma::prog_args::destination(d, "d"), "d"); });
+               if (!viaHandler.empty()) { out = viaHandler; return; }      // refused (or a `!!` line)
+            }
             // both containers must take the same decision
             std::string ra, rn;
             T->vars.emplace_back(new int(0));
@@ -67,12 +123,30 @@ int main() {
             ra = vh::guarded([&] { T->abbr->addArgument(ha, key); });      // takes ownership, also when it throws
             rn = vh::guarded([&] { T->noabbr->addArgument(hn, key); });
             if (ra != rn) { out = "!! containers disagree: " + ra + " / " + rn; return; }
+            if (haveSub && !ra.empty()) { out = "!! the Handler accepted a plain specification the container refuses: " + ra; return; }
             if (!ra.empty()) { out = ra; return; }
             T->indexA[ha] = T->count;
             T->indexN[hn] = T->count;
             out = "ok idx=" + std::to_string(T->count);
+            T->specs.emplace_back(spec, T->count);
             ++T->count;
-            T->specs.push_back(spec);
+         });
+         return thrown.empty() ? out : thrown;
+      }
+      if (op == "addsub" && t.size() == 3) {
+         std::string spec;
+         if (!vh::hexDecodeStr(t[2], spec)) return "bad-op";
+         std::string thrown = vh::guarded([&] {
+            celma::prog_args::Handler h(0);
+            Filled f;
+            out = fill(h, *T, f);
+            if (!out.empty()) return;
+            celma::prog_args::Handler sub(h, 0);
+            std::string r = vh::guarded([&] { h.addArgument(spec, sub, "d"); });
+            if (!r.empty()) { out = r; return; }
+            out = "ok idx=" + std::to_string(T->count);
+            T->subspecs.emplace_back(spec, T->count);
+            ++T->count;
          });
          return thrown.empty() ? out : thrown;
       }
@@ -99,14 +173,10 @@ int main() {
          const bool abbr = t[2] == "1";
          try {
             celma::prog_args::Handler h(abbr ? 0 : celma::prog_args::Handler::hfNoAbbr);
-            std::vector<std::unique_ptr<int>> dest;
-            for (const std::string& spec : T->specs) {
-               dest.emplace_back(new int(0));
-               try { h.addArgument(spec, celma::prog_args::destination(*dest.back(), "d"), "d"); }
-               catch (const std::exception& e) {
-                  return std::string("!! Handler::addArgument refused a specification the container accepted: ") + e.what();
-               }
-            }
+            Filled f;
+            const std::string bad = fill(h, *T, f);
+            if (!bad.empty()) return bad;
+            auto const& dest = f.dest;
             std::string prog = "prog", seven = "7";
             char* argv[] = { &prog[0], &word[0], &seven[0], nullptr };
             h.evalArguments(3, argv);
@@ -114,7 +184,7 @@ int main() {
             for (size_t i = 0; i < dest.size(); ++i)
                if (*dest[i] == 7) {
                   if (!hit.empty()) return "!! two destinations received the value";
-                  hit = std::to_string(i);
+                  hit = std::to_string(f.global[i]);
                }
             if (hit.empty()) return "!! accepted, but no destination received the value";
             return "ok " + hit;
